@@ -76,7 +76,7 @@ PIPELINES = [
      ["refinement.2", {"refinement_method": "quadratic"}]],
     [["matching_cost", {"matching_cost_method": "census", "window_size": 3, "subpix": 2}],
      ["disparity", {"disparity_method": "wta", "invalid_disparity": "NaN"}],
-     ["filter", {"filter_method": "bilateral", "sigma_space": 0.7}],
+     ["filter", {"filter_method": "bilateral", "sigma_space": 0.9}],
      ["refinement", {"refinement_method": "quadratic"}]],
     [["matching_cost", {"matching_cost_method": "zncc", "window_size": 5}],
      ["cost_volume_confidence.x", {"confidence_method": "ambiguity", "normalization": False}],
@@ -90,6 +90,8 @@ PIPELINES = [
 def make_pair(seedval: int):
     rng = np.random.RandomState(seedval)
     H, W = 32 + seedval % 5, 40 + seedval % 7
+    if seedval % 3 == 2 and seedval > 10:  # a third of the environment cases: larger images, more parallel work
+        H, W = 3 * H, 3 * W
     left = rng.randint(0, 30, (H, W)).astype(np.float32)
     right = np.roll(left, 1 + seedval % 3, axis=1)
     right[rng.rand(H, W) < 0.1] = rng.randint(0, 30)
@@ -156,6 +158,30 @@ def run_case(pipe_idx: int, pair_seed: int, machine=None, do_check=True, checked
 
 
 # ---------------------------------------------------------------------------------------------------------------
+# pristine reference: the hash a fresh single-purpose process computes for one (pipeline, pair)
+# ---------------------------------------------------------------------------------------------------------------
+def pristine_hash(pidx: int, pseed: int) -> str:
+    root = os.path.join(env.VERIF_DIR, ".work", "c18ref", env.tree_hash() + "-" + os.environ.get("PANDORA_NUMBA_PARALLEL", "True"))
+    os.makedirs(root, exist_ok=True)
+    path = os.path.join(root, f"{pidx}-{pseed}.json")
+    if not os.path.exists(path):
+        cases = path + f".{os.getpid()}.cases"
+        out = path + f".{os.getpid()}.out"
+        with open(cases, "w") as f:
+            json.dump([[pidx, pseed]], f)
+        e = dict(os.environ)
+        e["NUMBA_CACHE_DIR"] = env.cache_dir(e.get("PANDORA_NUMBA_PARALLEL", "True"))
+        r = subprocess.run([sys.executable, "-m", "pbt.props.c18", "child", cases, out, "0", "1"], env=e, cwd=env.VERIF_DIR,
+                           capture_output=True, text=True)
+        if not os.path.exists(out):
+            raise HarnessError(f"pristine child failed: {r.stdout[-800:]}{r.stderr[-800:]}")
+        os.replace(out, path)
+        os.remove(cases)
+    with open(path) as f:
+        return json.load(f)["results"][0][0][0]
+
+
+# ---------------------------------------------------------------------------------------------------------------
 # (a) histories
 # ---------------------------------------------------------------------------------------------------------------
 def replay_history(ctx: Ctx, p: dict) -> None:
@@ -182,6 +208,10 @@ def replay_history(ctx: Ctx, p: dict) -> None:
             if diff:
                 ctx.violation("C18/caller-datasets-modified", f"pipeline {s['pipe']} pair {pseed}: {diff}")
             key = (s["pipe"], pseed)
+            if key not in seen and full != pristine_hash(s["pipe"], pseed):
+                ctx.violation("C18/products-differ-from-pristine-process",
+                              f"pipeline {s['pipe']} pair {pseed}: first observation in this process differs from a fresh "
+                              f"single-purpose process (history {p['ops']})")
             if key in seen and seen[key] != full:
                 ctx.violation("C18/products-differ-between-runs", f"pipeline {s['pipe']} pair {pseed} after history {p['ops']}")
             seen.setdefault(key, full)
@@ -350,6 +380,9 @@ def env_body(ctx: Ctx, p: dict) -> None:
 
     shutil.rmtree(work, ignore_errors=True)
     ref_full = ref_red = None
+    for ci, (pidx, pseed) in enumerate(p["cases"]):
+        ref_full = ref_full or {}
+        ref_full[ci] = (pristine_hash(pidx, pseed), "pristine single-case process")
     for (threads, layer, chunk, parallel), res in zip(p["envs"], results):
         tag = f"threads={threads} layer={layer}->{res['info']['layer']} chunk={chunk} parallel={parallel}"
         for ci, hs in enumerate(res["results"]):
